@@ -16,7 +16,7 @@ NSHARDS = {"quick": 32, "thorough": 64}
 BUDGET_S = {"quick": 200, "thorough": 2400}
 MIN_HITS = {
     'quick': {"history": 10555, "sighash_step": 9343, "probe": 123286, "mut_after_fill": 3136, "slots_nonempty": 13085, "op_set_input": 6478, "op_set_output": 4864, "long_history": 48},
-    'thorough': {"history": 139802, "sighash_step": 935724, "probe": 4768161, "mut_after_fill": 66234, "op_set_input": 614446, "op_set_output": 460201, "long_history": 5760},
+    'thorough': {"history": 367608, "sighash_step": 1038509, "probe": 7707805, "mut_after_fill": 167301, "op_set_input": 664443, "op_set_output": 498246, "long_history": 5760},
 }
 
 ALPHABET = [
@@ -242,6 +242,12 @@ def cases(ctx):
         b += (0x11223344).to_bytes(4, "little")
         syms = [r.choice(["sh41", "shc1", "sh42", "sh43", "sg41", "hi41"])] + r.choices(syms_all, k=r.choice([0, 2, 5]))
         yield {"k": "hist", "init": bytes(b).hex(), "steps": build_history(syms, r), "probes": PROBES, "tag": "noncanonical_init"}
+    # start objects decoded from a JSON / CBOR document that carries EXTRA members named after the object's internal cache state
+    # (`hash_cache` with its three slots - names known from the hook): a decoder that lets a document preload the caches makes the
+    # first sighash depend on something other than the transaction's contents
+    for i in range(60 if thorough else 4):
+        syms = [r.choice(["sh41", "shc1", "sh42", "sh43", "sg41", "hi41"])] + r.choices(syms_all, k=r.choice([0, 2, 5]))
+        yield {"k": "hist", "init": init, "json_init": {"via": ["json", "cbor"][i % 2], "member": ["hash_cache", "hash_cache", "hashCache", "HashCache"][i % 4], "fill": r.choice(["all", "all", "inputs", "outputs", "sequence"])}, "steps": build_history(syms, r), "probes": PROBES, "tag": "document_with_cache_members"}
     # histories that start from an empty transaction built only through the API
     for _ in range(300 if thorough else 6):
         L = r.choice([6, 10, 20])
@@ -254,7 +260,25 @@ def cases(ctx):
 
 def judge(ctx, case):
     req = {"op": "history", "steps": case["steps"], "probes": case["probes"]}
-    if case["init"] is not None:
+    if case.get("json_init"):
+        import json
+
+        ji = case["json_init"]
+        ctx.hit("document_with_cache_members")
+        d = ctx.call({"op": "docs", "tx": case["init"]})
+        if "ok" not in d:
+            ctx.note("library JSON of the start transaction unavailable")
+            return
+        doc = json.loads(d["ok"]["json"])
+        slots = {"hash_inputs": "aa" * 32, "hash_sequence": "bb" * 32, "hash_outputs": "cc" * 32}
+        if ji["fill"] != "all":
+            slots = {q: v for q, v in slots.items() if ji["fill"] in q}
+        if ji["member"] == "hashCache":
+            slots = {"hashInputs": slots.get("hash_inputs"), "hashSequence": slots.get("hash_sequence"), "hashOutputs": slots.get("hash_outputs")}
+        doc[ji["member"]] = slots
+        req["init_json"] = json.dumps(doc)
+        req["init_via"] = ji["via"]
+    elif case["init"] is not None:
         req["init"] = case["init"]
     r = ctx.call(req, watchdog=300)
     ctx.hit("history")
@@ -262,6 +286,9 @@ def judge(ctx, case):
         ctx.hit("long_history")
     if case.get("tag") == "noncanonical_init":
         ctx.hit("noncanonical_init")
+    if "ok" not in r and case.get("json_init") and "drv_err" in r and "init parse" in str(r["drv_err"]):
+        ctx.note("document with extra members refused by the decoder (nothing to compare)")
+        return
     if "ok" not in r and case.get("tag") == "noncanonical_init" and "drv_err" in r and "init parse" in str(r["drv_err"]):
         ctx.note("non-canonical start encoding not accepted by the parser (nothing to compare)")
         return
